@@ -80,5 +80,6 @@ Example C05_pb_example :
   exists f size, pb_pack 1000 [] m = Ok (f, size) /\ blen f < 4294967296.
 Proof.
   intros m. split; [vm_compute; reflexivity|]. split; [repeat split; vm_compute; reflexivity|].
-  eexists. eexists. split; vm_compute; reflexivity.
+  remember (pb_pack 1000 [] m) as r eqn:E. vm_compute in E. subst r.
+  eexists. eexists. split; [reflexivity|]. vm_compute. reflexivity.
 Qed.
